@@ -9,6 +9,11 @@ package auth_test
 // witness set.  In every reachable state the registered native method
 // `verifyToken` is evaluated for every (identity, function, key proof) and
 // compared with a boring reference model.
+//
+// Unit "auth" (TestVerif_C41) searches the mixed menu of c41alphabet; unit
+// "lists" (TestVerif_C41_lists, C41_lists_test.go) searches a menu in which the
+// list-valued parameters of assignOntIDsToRole / assignFuncsToRole range over
+// every ordered list (with repeats) of 1..3 elements.
 
 import (
 	"bytes"
@@ -243,6 +248,9 @@ func c41open(r *vh.Run) *c41fix {
 	for _, ev := range c41alphabet(true) {
 		f.evs[ev.label] = ev
 	}
+	for _, ev := range c41listAlphabet() {
+		f.evs[ev.label] = ev
+	}
 	for _, ev := range c41alphabet(r.Thorough()) {
 		f.menu = append(f.menu, ev.label)
 	}
@@ -263,6 +271,8 @@ type c41ref struct {
 	funcs     [c41NRole][c41NFn]bool    // grow-only
 	direct    [c41NID][c41NRole]bool    // roles assigned by the admin
 	dirLive   [c41NID][c41NRole]bool    // (naming only) assigned while the same role was held through a live delegation
+	dirLate   [c41NID][c41NRole]bool    // (naming only) assigned as a later (not the first) element of the call's person list
+	fnLate    [c41NRole][c41NFn]bool    // (naming only) assigned as a later (not the first) element of the call's function list
 	deleg     [c41NID][c41NRole]c41deleg
 	withdrawn [c41NID][c41NRole]bool // (naming only)
 	now       uint32
@@ -290,18 +300,27 @@ func (m *c41ref) may(id, fn int) (bool, string) {
 		if !m.funcs[role][fn] {
 			continue
 		}
+		// the plain reason outranks the same reason with a list-position note
+		fl, fnote := 1, ""
+		if m.fnLate[role][fn] {
+			fl, fnote = 0, "+function-listed-after-others-in-its-call"
+		}
 		d := m.deleg[id][role]
 		if m.direct[id][role] && !m.dirLive[id][role] {
-			set(4, "direct-role")
+			if m.dirLate[id][role] {
+				set(16+fl, "direct-role(person-listed-after-others-in-its-call)"+fnote)
+			} else {
+				set(18+fl, "direct-role"+fnote)
+			}
 		}
 		if d.set && d.expiry > m.now {
-			set(3, "delegated-role")
+			set(14+fl, "delegated-role"+fnote)
 		}
 		if d.set && d.expiry == m.now {
-			set(2, "delegated-role@expiry==now")
+			set(12+fl, "delegated-role@expiry==now"+fnote)
 		}
 		if m.direct[id][role] && m.dirLive[id][role] {
-			set(1, "direct-role-assigned-during-live-delegation")
+			set(10+fl, "direct-role-assigned-during-live-delegation"+fnote)
 		}
 	}
 	if rank > 0 {
@@ -392,7 +411,7 @@ func (s *c41st) key() string { return fmt.Sprintf("t=%d|%s", s.ref.now, s.dumpHa
 // with its storage-equal sibling would hide the divergence from later steps.
 func (s *c41st) searchKey() string {
 	m := s.ref
-	return s.key() + fmt.Sprintf("|ref:%d%v%v%v%v%v", m.admin, m.funcs, m.direct, m.dirLive, m.deleg, m.withdrawn)
+	return s.key() + fmt.Sprintf("|ref:%d%v%v%v%v%v%v%v", m.admin, m.funcs, m.direct, m.dirLive, m.deleg, m.withdrawn, m.dirLate, m.fnLate)
 }
 
 func (f *c41fix) init(seed string, prefix []string, t0 uint32) *c41st {
@@ -513,15 +532,21 @@ func (f *c41fix) apply(s *c41st, label string) (string, string) {
 			bad(kn+":succeeded-without-key-proof", fmt.Sprintf("witness was K%d", ev.wit))
 		}
 		if ev.kind == c41kFuncs {
-			for _, x := range ev.fns {
-				m.funcs[ev.role][x] = true
+			// every listed function is assigned to the role (repeats and functions the role already has change nothing)
+			for i, x := range ev.fns {
+				if !m.funcs[ev.role][x] {
+					m.funcs[ev.role][x] = true
+					m.fnLate[ev.role][x] = i > 0
+				}
 			}
 		} else {
-			for _, p := range ev.persons {
+			// every listed person is given the role (repeats and persons that already hold it change nothing)
+			for i, p := range ev.persons {
 				if !m.direct[p][ev.role] {
 					d := m.deleg[p][ev.role]
 					m.direct[p][ev.role] = true
 					m.dirLive[p][ev.role] = d.set && d.expiry > m.now
+					m.dirLate[p][ev.role] = i > 0
 				}
 			}
 		}
@@ -663,14 +688,12 @@ type c41seed struct {
 	depth  [2]int // quick, thorough
 }
 
-func TestVerif_C41(t *testing.T) {
-	r := vh.Start(t, "C41", "auth")
-	defer r.Finish()
-	f := c41open(r)
-	defer f.base.Close()
-	qs := f.queries()
+// c41lab: label of an event.
+func c41lab(e c41ev) string { return c41mk(e).label }
 
-	lab := func(e c41ev) string { return c41mk(e).label }
+// c41prefixes: the event prefixes that build the seed states (shared by both units).
+func c41prefixes() (s0, s1, s2, s3, s4 []string) {
+	lab := c41lab
 	init0 := lab(c41ev{kind: c41kInit, a: 0})
 	f0 := lab(c41ev{kind: c41kFuncs, a: 0, role: 0, fns: []int{0}, wit: 0})
 	f1 := lab(c41ev{kind: c41kFuncs, a: 0, role: 1, fns: []int{1}, wit: 0})
@@ -678,10 +701,37 @@ func TestVerif_C41(t *testing.T) {
 	dg := func(role int) string {
 		return lab(c41ev{kind: c41kDeleg, a: 1, b: 2, role: role, period: 10, level: 1, wit: 1})
 	}
-	s1 := []string{init0, f0, f1, id(0, 1)}
-	s2 := append(append([]string{}, s1...), id(1, 1), id(0, 0))
-	s3 := append(append([]string{}, s2...), dg(0), dg(1))
-	s4 := append(append([]string{}, s2...), id(1, 2))
+	s0 = []string{init0}
+	s1 = []string{init0, f0, f1, id(0, 1)}
+	s2 = append(append([]string{}, s1...), id(1, 1), id(0, 0))
+	s3 = append(append([]string{}, s2...), dg(0), dg(1))
+	s4 = append(append([]string{}, s2...), id(1, 2))
+	return
+}
+
+func c41tier(r *vh.Run) int {
+	if r.Thorough() {
+		return 1
+	}
+	return 0
+}
+
+func c41bounds(seeds []c41seed, tier int) string {
+	var bounds []string
+	for _, sd := range seeds {
+		bounds = append(bounds, fmt.Sprintf("%s:depth<=%d", sd.name, sd.depth[tier]))
+	}
+	return strings.Join(bounds, ", ")
+}
+
+func TestVerif_C41(t *testing.T) {
+	r := vh.Start(t, "C41", "auth")
+	defer r.Finish()
+	f := c41open(r)
+	defer f.base.Close()
+	qs := f.queries()
+
+	_, s1, s2, s3, s4 := c41prefixes()
 	seeds := []c41seed{
 		{"bare", nil, 0, [2]int{4, 6}},
 		{"admin+roles+I1:r", s1, 0, [2]int{3, 5}},
@@ -690,20 +740,27 @@ func TestVerif_C41(t *testing.T) {
 		{"admin+roles+I1:r,rw+I0:r+I2:rw", s4, 0, [2]int{4, 5}},
 		{"horizon-1(2100-01-01)", s4, f.horizon - 1, [2]int{2, 3}},
 	}
-	tier := 0
-	if r.Thorough() {
-		tier = 1
-	}
+	tier := c41tier(r)
 	r.Rule("every event sequence (BFS, deduplicated on auth storage + time + reference state) from each seed state is executed on the real auth+ontid contracts; in every distinct state verifyToken is called for every (identity, function, key proof) and compared with the reference model; a class is (reference verdict, reason) of one query or the outcome of one operation kind")
-	var bounds []string
-	for _, sd := range seeds {
-		bounds = append(bounds, fmt.Sprintf("%s:depth<=%d", sd.name, sd.depth[tier]))
-	}
 	r.Bound(fmt.Sprintf("3 identities (one with 2 keys), 2 roles, 2 functions, periods {1,10}, levels {0,1,2}, time steps {1,10}; %d events; seeds: %s",
-		len(f.menu), strings.Join(bounds, ", ")))
+		len(f.menu), c41bounds(seeds, tier)))
 	r.Assume("block time never exceeds 2100-01-01T12:00Z, the fixed expiry the contract gives to roles assigned by the admin (time events are disabled at that instant)")
 	r.Assume("identities keep their keys (no key revocation / ONT ID changes during a history); one contract is administered, a second one is only queried")
 
+	if c41drive(r, f, qs, seeds) {
+		return
+	}
+	for _, c := range []string{"confirmed:direct-role", "confirmed:delegated-role", "confirmed:delegated-role@expiry==now",
+		"confirmed:direct-role(second-key)", "denied:delegation-expired", "denied:delegation-withdrawn", "denied:no-witness",
+		"denied:other-identity-key", "denied:role-lacks-function", "denied:no-role", "op:delegate:ok", "op:withdraw:ok", "op:transfer:ok"} {
+		r.NeedClass(c)
+	}
+}
+
+// c41drive runs the search over f.menu from every seed (or, under --replay, the
+// stored history from every seed; then it returns true).
+func c41drive(r *vh.Run, f *c41fix, qs []c41query, seeds []c41seed) bool {
+	tier := c41tier(r)
 	clone := func(s *c41st) *c41st {
 		n := &c41st{f: f, seed: s.seed, auth: s.auth, dh: s.dh, ref: s.ref}
 		if s.env != nil { // not frozen yet (root)
@@ -806,7 +863,7 @@ func TestVerif_C41(t *testing.T) {
 		r.State(1)
 		r.Trans(int64(len(rc.History)))
 		r.Sample(map[string]interface{}{"replayed": rc.History})
-		return
+		return true
 	}
 
 	var perSeed []string
@@ -826,9 +883,5 @@ func TestVerif_C41(t *testing.T) {
 	r.Set("queries_per_state", len(qs))
 	r.Sample(map[string]interface{}{"identities": []string{string(f.id[0]), string(f.id[1]), string(f.id[2])},
 		"contract": f.contract.ToHexString(), "events": len(f.menu), "first_events": f.menu[:6]})
-	for _, c := range []string{"confirmed:direct-role", "confirmed:delegated-role", "confirmed:delegated-role@expiry==now",
-		"confirmed:direct-role(second-key)", "denied:delegation-expired", "denied:delegation-withdrawn", "denied:no-witness",
-		"denied:other-identity-key", "denied:role-lacks-function", "denied:no-role", "op:delegate:ok", "op:withdraw:ok", "op:transfer:ok"} {
-		r.NeedClass(c)
-	}
+	return false
 }
